@@ -430,7 +430,15 @@ def solve_both(sp, opts):
         kw.update(opts)
         kw["use_numba"] = numba
         try:
-            pp.pipeflow(net, **kw)
+            if kw.get("mode") == "heat":
+                # thermal-only calculation: needs the hydraulic solution of the same engine first
+                from pandapipes.idx_node import PINIT
+                from pandapipes.idx_branch import MDOTINIT
+                pp.pipeflow(net, **dict(kw, mode="hydraulics"))
+                u = np.concatenate((net._pit["node"][:, PINIT], net._pit["branch"][:, MDOTINIT]))
+                pp.pipeflow(net, sol_vec=u, **kw)
+            else:
+                pp.pipeflow(net, **kw)
             res.append(("ok", spec.results_by_id(net, idmap)))
         except Exception as e:
             res.append(("raised:" + type(e).__name__, None))
